@@ -1,7 +1,7 @@
 /-
 C04 proofs — consequences of `Struct` + `Reach` in one state, used by the preservation proofs of the protocol fields.
 -/
-import TbbVerif.Proofs.C04.ReachE
+import TbbVerif.Proofs.C04.ReachD
 
 namespace TbbVerif.C04
 variable {reg : List Nat} {s : St}
@@ -33,31 +33,76 @@ theorem no_cover_of_alive (hS : Struct reg s) {p t : Nat} (ok : okParent s p) : 
   have := hS.ownsSt t p (Pc.registered_owns (Pc.coverOf_registered h))
   rcases ok.1 with h' | h' <;> rw [h'] at this <;> cases this
 
+theorem Pc.pending_inReg {pc : Pc} {a i : Nat} {l : List Nat} (h : pc.pending = some (a, i, l)) : pc.inReg = true :=
+  (Pc.walkSrc_inReg (Pc.pending_walk h).2).1
+
+theorem cur_le_s (hR : Reach reg s) {a m : Nat} (h : Cur s.wst s.rst a m) : m ≤ s.clk := cur_le hR.wstLe h
+
+theorem passed_le_s (hR : Reach reg s) {k a m : Nat} (h : Passed s.skipSt s.srcOf s.pst k a m) : m ≤ s.clk :=
+  passed_le hR.skipLe hR.pstLe h
+
+/-- the created→locked CAS on `c` keeps every `Vf` fact -/
+theorem vf_cas (hS : Struct reg s) {c x a m : Nat} {v : Option Nat} {can : Nat → Bool} {rst : Nat → Nat} {oc : Nat → Bool}
+    (hc : s.cst c = .created) (h : Vf s.par can rst oc m a x) : Vf (upd s.par c v) can rst oc m a x :=
+  vf_par (fun _ _ h => anc_upd_par (hS.createdPar c hc) (fun y e => (hS.parDone y c e).1 hc) h) h
+
+/-! ### classification of the pc a walk moves to -/
+section nextl
+variable (cfg : Cfg) (reg : List Nat) (act : Nat → Bool) (src i : Nat)
+
+theorem nextList_cases' : (∃ j, nextList cfg reg act src i = .cLockList src j) ∨
+    nextList cfg reg act src i = .cUnlockProp src ∨ nextList cfg reg act src i = .cUnlockReg src := by
+  rcases nextList_cases cfg reg act src i with h | h
+  · exact Or.inl h
+  · unfold afterLists at h
+    split at h
+    · exact Or.inr (Or.inl h)
+    · exact Or.inr (Or.inr h)
+
+@[simp high] theorem nextList_pending : (nextList cfg reg act src i).pending = none := by
+  rcases nextList_cases' cfg reg act src i with ⟨j, h⟩ | h | h <;> rw [h] <;> rfl
+@[simp high] theorem nextList_inReg : (nextList cfg reg act src i).inReg = true := by
+  rcases nextList_cases' cfg reg act src i with ⟨j, h⟩ | h | h <;> rw [h] <;> rfl
+@[simp high] theorem nextList_walkIdx : (nextList cfg reg act src i).walkIdx = none := by
+  rcases nextList_cases' cfg reg act src i with ⟨j, h⟩ | h | h <;> rw [h] <;> rfl
+@[simp high] theorem nextList_copyVal : (nextList cfg reg act src i).copyVal = none := by
+  rcases nextList_cases' cfg reg act src i with ⟨j, h⟩ | h | h <;> rw [h] <;> rfl
+end nextl
+
+/-- a thread leaving the registry (its contexts become orphaned) keeps every `Vf` fact -/
+theorem vf_exit {x a m : Nat} {can : Nat → Bool} {rst : Nat → Nat} {par : Nat → Option Nat} {oc : Nat → Bool} {l : List Nat}
+    (h : Vf par can rst oc m a x) : Vf par can rst (orphanMark oc l) m a x :=
+  vf_oc_or h
+
 /-- **The parent's flag is final for everything that has passed.**  If the parent `p` of a binder is alive and not
-cancelled, and every propagation numbered ≤ m has finished p's list, then no source that has passed (number ≤ m, or
-skipped at the hint test) is an ancestor-or-self of `p`. -/
-theorem parent_final (hS : Struct reg s) (hR : Reach reg s) {p m a : Nat} (ok : okParent s p) (hm : m ≤ s.G)
-    (hL : ∀ L, s.lst p = some L → m ≤ s.epoch L) (hcan : s.can p = false)
-    (hp : PassedUpTo s.skip s.srcOf m a) : ¬ (p = a ∨ Anc s.par p a) := by
-  rintro (e | h)
+cancelled, every propagation numbered ≤ k has finished p's list (if that list still belongs to a registered thread), and the
+current cancellation (a, m) has passed (number ≤ k, or skipped at the hint test) with `a` an ancestor-or-self of `p`, then
+`p` is not `a` and is stale for (a, m) — possibly because its list was orphaned. -/
+theorem parent_final (hS : Struct reg s) (hR : Reach reg s) {p k a m : Nat} (ok : okParent s p)
+    (hL : ∀ L, s.lst p = some L → s.act L = true → k ≤ s.eff L) (hcan : s.can p = false)
+    (hp : Passed s.skipSt s.srcOf s.pst k a m) (hc : Cur s.wst s.rst a m) (h : p = a ∨ Anc s.par p a) :
+    Anc s.par p a ∧ Stale s.par s.rst s.oc m a p := by
+  rcases h with e | h
   · subst e
-    rcases hp with hp | ⟨n, h1, h2, h3⟩
-    · rw [hR.skipCan _ hp] at hcan; cases hcan
-    · have := hR.srcCan n h1 (by omega)
-      rw [h3, hcan] at this; cases this
-  · obtain ⟨q, hq, _⟩ := h.unfold
+    rw [hR.curCan _ _ hc] at hcan; cases hcan
+  · refine ⟨h, ?_⟩
+    obtain ⟨q, hq, _⟩ := h.unfold
     obtain ⟨L, hlst, hmem⟩ := alive_registered hS ok hq
-    rcases hR.listed L p a hmem (passed_mono (hL L hlst) hp) h with hc | ⟨t, ht⟩
-    · rw [hc] at hcan; cases hcan
-    · exact no_cover_of_alive hS ok ht
+    cases hact : s.act L with
+    | false => exact Or.inl (Or.inr (hS.ocItems L p hmem hact))
+    | true =>
+      rcases hR.listed L p a m hmem (passed_mono (hL L hlst hact) hp) hc h with (hc' | hst) | ⟨t, ht⟩
+      · rw [hc'] at hcan; cases hcan
+      · exact hst
+      · exact (no_cover_of_alive hS ok ht).elim
 
 /-- while a binder holds the propagation mutex every list epoch equals the global epoch -/
 theorem epochs_synced_of_binder (hR : Reach reg s) {t : Nat} (hp : s.propMx = some t) (hw : (s.pc t).walkFrom = none)
-    {L : Nat} (hL : L ∈ reg) : s.epoch L = s.G := by
-  rcases Nat.lt_or_ge (s.epoch L) s.G with h | h
-  · obtain ⟨j, hj, _⟩ := hR.epochWalk t L hL hp (by omega)
+    {L : Nat} (hL : L ∈ reg) (ha : s.act L = true) : s.eff L = s.G := by
+  by_cases h : s.eff L = s.G
+  · exact h
+  · obtain ⟨j, hj, _⟩ := hR.epochWalk t L hL ha hp h
     rw [hw] at hj; cases hj
-  · have := hR.epochLe L; omega
 
 theorem Pc.afterSpec_pastHint {pc : Pc} {x n : Nat} (h : pc.afterSpec = some (x, n)) :
     ∃ p, pc.owner = some (x, some p) ∧ pc.pastHint = some p := by
@@ -71,14 +116,14 @@ theorem Pc.afterSpec_pastHint {pc : Pc} {x n : Nat} (h : pc.afterSpec = some (x,
     exact ⟨p, by simp [Pc.owner, h.1], rfl⟩
 
 /-- the hint of every ancestor of a context whose binder is past the hint store is set -/
-theorem anc_mhc_owner (hS : Struct reg s) (hR : Reach reg s) {t x p a : Nat}
+theorem anc_mhc_owner (hS : Struct reg s) (hH : Hint s) {t x p a : Nat}
     (ho : (s.pc t).owner = some (x, some p)) (hh : (s.pc t).pastHint = some p) (h : Anc s.par x a) : s.mhc a = true := by
   have hpar := hS.ownerPar t x (some p) ho
   obtain ⟨q, hq, h'⟩ := h.unfold
   rw [hpar] at hq
   have e : p = q := Option.some.inj hq
   subst e
-  exact anc_mhc_bind hS hR.mhcReg (hS.bindAlive t p (Pc.pastHint_bindParent hh)) (hR.mhcBind t p hh) h'
+  exact anc_mhc_bind hS hH.mhcReg (hS.bindAlive t p (Pc.pastHint_bindParent hh)) (hH.mhcBind t p hh) h'
 
 /-- the created→locked CAS on `c` (which sets `c`'s parent) changes the ancestors of no other context -/
 theorem anc_cas_back (hS : Struct reg s) {c z a : Nat} {v : Option Nat} (hc : s.cst c = .created) (hz : z ≠ c)
@@ -109,87 +154,74 @@ theorem anc_via_parent (hS : Struct reg s) {t x p a : Nat} (ho : (s.pc t).owner 
   cases hq
   exact h'
 
+/-- what the child learns: stale for (a, m) -/
+theorem stale_via_parent (hS : Struct reg s) {t x p a m : Nat} (ho : (s.pc t).owner = some (x, some p))
+    (h : Anc s.par p a ∧ Stale s.par s.rst s.oc m a p) : Stale s.par s.rst s.oc m a x :=
+  stale_child (hS.ownerPar t x (some p) ho) h.1 h.2
+
 /-- speculative load on the snapshot path -/
-theorem spec_establish (hS : Struct reg s) (hR : Reach reg s) {t x p n a : Nat} (hpc : s.pc t = .bSpecL x p n)
-    (hcan : s.can p = false) (hp : PassedUpTo s.skip s.srcOf n a) : ¬ Anc s.par x a := by
-  intro h
+theorem spec_establish (hS : Struct reg s) (hR : Reach reg s) {t x p n a m : Nat} (hpc : s.pc t = .bSpecL x p n)
+    (hcan : s.can p = false) (hp : Passed s.skipSt s.srcOf s.pst n a m) (hc : Cur s.wst s.rst a m)
+    (h : Anc s.par x a) : Vf s.par s.can s.rst s.oc m a x := by
   have ok := hS.bindAlive t p (by rw [hpc]; rfl)
-  exact parent_final hS hR ok (hR.snapLe t n (by rw [hpc]; rfl)) (fun L hL => hR.snapEpoch t x p n L hpc hL) hcan hp
-    (anc_via_parent hS (by rw [hpc]; rfl) h)
+  exact Or.inr (stale_via_parent hS (by rw [hpc]; rfl)
+    (parent_final hS hR ok (fun L hL _ => hR.snapEpoch t x p n L hpc hL) hcan hp hc
+      (anc_via_parent hS (by rw [hpc]; rfl) h)))
 
 /-- load under the fall-back mutex: no propagation is in flight, every list is synced -/
-theorem fb_establish (hS : Struct reg s) (hR : Reach reg s) {t x p a : Nat} (hpc : s.pc t = .bFbL x p)
-    (hcan : s.can p = false) (hp : PassedUpTo s.skip s.srcOf s.G a) : ¬ Anc s.par x a := by
-  intro h
+theorem fb_establish (hS : Struct reg s) (hR : Reach reg s) {t x p a m : Nat} (hpc : s.pc t = .bFbL x p)
+    (hcan : s.can p = false) (hp : Passed s.skipSt s.srcOf s.pst s.G a m) (hc : Cur s.wst s.rst a m)
+    (h : Anc s.par x a) : Vf s.par s.can s.rst s.oc m a x := by
   have ok := hS.bindAlive t p (by rw [hpc]; rfl)
   have hmx := hR.propMx t (by rw [hpc]; rfl)
-  refine parent_final hS hR ok (Nat.le_refl _) (fun L hL => ?_) hcan hp (anc_via_parent hS (by rw [hpc]; rfl) h)
+  refine Or.inr (stale_via_parent hS (by rw [hpc]; rfl)
+    (parent_final hS hR ok (fun L hL ha => ?_) hcan hp hc (anc_via_parent hS (by rw [hpc]; rfl) h)))
   have hpar : s.par p ≠ none := hS.snapPar t p (by rw [hpc]; rfl)
   obtain ⟨q, hq⟩ := Option.ne_none_iff_exists'.1 hpar
   obtain ⟨L', hL', hmem⟩ := alive_registered hS ok hq
   rw [hL] at hL'
   cases hL'
-  have := epochs_synced_of_binder hR hmx (by rw [hpc]; rfl) (hS.itemsOk L p hmem).2.1
+  have := epochs_synced_of_binder hR hmx (by rw [hpc]; rfl) (hS.itemsOk L p hmem).2.1 ha
   omega
 
-/-- load after registration when the parent is a root: only the parent itself can be a source above -/
-theorem root_establish (hS : Struct reg s) (hR : Reach reg s) {t x p a : Nat} (hpc : s.pc t = .bRootL x p)
-    (hcan : s.can p = false) (hp : PassedUpTo s.skip s.srcOf s.G a) : ¬ Anc s.par x a := by
+/-- load after registration when the parent is a root: only the parent itself can be a source above, and a current
+cancellation keeps its context cancelled -/
+theorem root_establish (hS : Struct reg s) (hR : Reach reg s) {t x p a m : Nat} (hpc : s.pc t = .bRootL x p)
+    (hcan : s.can p = false) (hc : Cur s.wst s.rst a m) : ¬ Anc s.par x a := by
   intro h
   have hroot := hS.rootPar t p (by rw [hpc]; rfl)
   rcases anc_via_parent hS (by rw [hpc]; rfl) h with e | h'
   · subst e
-    rcases hp with hp | ⟨n, h1, h2, h3⟩
-    · rw [hR.skipCan _ hp] at hcan; cases hcan
-    · have := hR.srcCan n h1 h2
-      rw [h3, hcan] at this; cases this
+    rw [hR.curCan _ _ hc] at hcan; cases hcan
   · exact Anc.not_root hroot h'
 
 /-- a source whose hint is still clear has nothing registered or being bound (past the hint store) beneath it -/
-theorem no_anc_of_hint_clear_owner (hS : Struct reg s) (hR : Reach reg s) {t x p a : Nat}
+theorem no_anc_of_hint_clear_owner (hS : Struct reg s) (hH : Hint s) {t x p a : Nat}
     (ho : (s.pc t).owner = some (x, some p)) (hh : (s.pc t).pastHint = some p) (hm : s.mhc a = false) : ¬ Anc s.par x a := by
   intro h
-  rw [anc_mhc_owner hS hR ho hh h] at hm
+  rw [anc_mhc_owner hS hH ho hh h] at hm
   cases hm
 
-theorem no_anc_of_hint_clear_reg (hS : Struct reg s) (hR : Reach reg s) {L x a : Nat} (hx : x ∈ s.items L)
+theorem no_anc_of_hint_clear_reg (hS : Struct reg s) (hH : Hint s) {L x a : Nat} (hx : x ∈ s.items L)
     (hm : s.mhc a = false) : ¬ Anc s.par x a := by
   intro h
-  rw [anc_mhc hS hR.mhcReg h L hx] at hm
+  rw [anc_mhc hS hH.mhcReg h L hx] at hm
   cases hm
 
-theorem no_anc_afterSpec (hS : Struct reg s) (hR : Reach reg s) {t x n a : Nat}
+theorem no_anc_afterSpec (hS : Struct reg s) (hH : Hint s) {t x n a : Nat}
     (h : (s.pc t).afterSpec = some (x, n)) (hm : s.mhc a = false) : ¬ Anc s.par x a := by
   obtain ⟨p, ho, hh⟩ := Pc.afterSpec_pastHint h
-  exact no_anc_of_hint_clear_owner hS hR ho hh hm
+  exact no_anc_of_hint_clear_owner hS hH ho hh hm
 
-theorem no_anc_fbU (hS : Struct reg s) (hR : Reach reg s) {t x p a : Nat}
+theorem no_anc_fbU (hS : Struct reg s) (hH : Hint s) {t x p a : Nat}
     (h : s.pc t = .bFbU x p) (hm : s.mhc a = false) : ¬ Anc s.par x a :=
-  no_anc_of_hint_clear_owner hS hR (by rw [h]; rfl) (by rw [h]; rfl) hm
+  no_anc_of_hint_clear_owner hS hH (by rw [h]; rfl) (by rw [h]; rfl) hm
 
 theorem locked_afterSpec (hS : Struct reg s) {t x n : Nat} (h : (s.pc t).afterSpec = some (x, n)) : s.cst x = .locked :=
   hS.ownsSt t x (Pc.afterSpec_owner h).1
 
 theorem snap_le_of_afterSpec (hR : Reach reg s) {t x n : Nat} (h : (s.pc t).afterSpec = some (x, n)) : n ≤ s.G :=
   hR.snapLe t n (Pc.afterSpec_owner h).2
-
-/-- the source recorded by an epoch increment is invisible below the new epoch -/
-theorem passed_below_bump {sk : Nat → Bool} {so : Nat → Nat} {G n a v : Nat} (hle : n ≤ G)
-    (h : PassedUpTo sk (upd so (G + 1) v) n a) : PassedUpTo sk so n a :=
-  (passed_upd_src (by omega)).1 h
-
-theorem passed_below_upd {sk : Nat → Bool} {so : Nat → Nat} {k n a v : Nat} (hlt : n < k)
-    (h : PassedUpTo sk (upd so k v) n a) : PassedUpTo sk so n a :=
-  (passed_upd_src hlt).1 h
-
-theorem passed_below_upd' {sk : Nat → Bool} {so : Nat → Nat} {k n a v : Nat} (hlt : n < k)
-    (h : PassedUpTo sk so n a) : PassedUpTo sk (upd so k v) n a :=
-  (passed_upd_src hlt).2 h
-
-theorem passed_pred {sk : Nat → Bool} {so : Nat → Nat} {m G a : Nat} (h : m + 1 = G)
-    (hp : PassedUpTo sk so G a) : so G = a ∨ PassedUpTo sk so m a := by
-  subst h
-  exact passed_succ.1 hp
 
 theorem Pc.coverOf_mono {pc : Pc} {G x : Nat} (h : pc.coverOf G = some x) : pc.coverOf (G + 1) = some x := by
   cases pc <;> simp [Pc.coverOf] at h ⊢
@@ -204,18 +236,21 @@ theorem mem_of_getElem?_some {reg : List Nat} {i L : Nat} (h : reg[i]? = some L)
   List.mem_of_getElem? h
 
 /-- P1 for the list a propagation is about to sync: everything beneath its source in that list has been painted -/
-theorem listed_sync (hS : Struct reg s) (hR : Reach reg s) {t src i g L x a : Nat} (hpc : s.pc t = .cSync src i g)
-    (hL : reg[i]? = some L) (hx : x ∈ s.items L) (hp : PassedUpTo s.skip s.srcOf s.G a) (ha : Anc s.par x a) :
-    s.can x = true ∨ ∃ t', (s.pc t').coverOf s.G = some x := by
-  rcases hR.epochNear L (mem_of_getElem?_some hL) with he | he
-  · exact hR.listed L x a hx (he ▸ hp) ha
+theorem listed_sync (hS : Struct reg s) (hR : Reach reg s) {t src i g L x a m : Nat} (hpc : s.pc t = .cSync src i g)
+    (hL : reg[i]? = some L) (hx : x ∈ s.items L) (hp : Passed s.skipSt s.srcOf s.pst s.G a m)
+    (hc : Cur s.wst s.rst a m) (ha : Anc s.par x a) :
+    Vf s.par s.can s.rst s.oc m a x ∨ ∃ t', (s.pc t').coverOf s.G = some x := by
+  have hact : s.act L = true := hS.walkAct t i L (by rw [hpc]; rfl) hL
+  rcases hR.epochNear L (mem_of_getElem?_some hL) hact with he | he
+  · exact hR.listed L x a m hx (he ▸ hp) hc ha
   · rcases passed_pred he hp with h | h
     · have hw := hR.walkG t src (by rw [hpc]; rfl)
       rw [hw.1] at h
-      subst h
+      obtain ⟨h1, h2⟩ := h
+      subst h1
       rcases hR.walked t src i [] L x (by rw [hpc]; rfl) hL hx with h | h
       · cases h
-      · exact Or.inl (h ha)
-    · exact hR.listed L x a hx h ha
+      · exact Or.inl (h2 ▸ h ha)
+    · exact hR.listed L x a m hx h hc ha
 
 end TbbVerif.C04
